@@ -148,9 +148,20 @@ func (l *PackageDeployer) Deploy(
 	}
 
 	// Check constraints
+	// Constraints are evaluated afresh on every deploy: forget the verdict of an earlier pass.
+	if c := meta.FindStatusCondition(
+		*apiPkg.GetConditions(), corev1alpha1.PackageInvalid); c != nil && c.Reason == constraintsFailedReason {
+		meta.RemoveStatusCondition(apiPkg.GetConditions(), corev1alpha1.PackageInvalid)
+	}
 	if err := validateConstraints(ctx, l.uncachedClient, apiPkg, pkg.Manifest, env); err != nil {
 		setInvalidConditionBasedOnLoadError(apiPkg, err)
 		return err
+	}
+	if c := meta.FindStatusCondition(
+		*apiPkg.GetConditions(), corev1alpha1.PackageInvalid); c != nil && c.Reason == constraintsFailedReason {
+		// Constraints of the manifest are not met: the Invalid condition says why,
+		// the package must neither be rendered nor deployed.
+		return nil
 	}
 
 	// prepare package render/template context
@@ -262,6 +273,8 @@ func setInvalidConditionBasedOnLoadError(pkg adapters.GenericPackageAccessor, er
 		ObservedGeneration: pkg.ClientObject().GetGeneration(),
 	})
 }
+
+const constraintsFailedReason = "ConstraintsFailed"
 
 var uniqueLock = sync.Mutex{}
 
